@@ -16,7 +16,7 @@ import tlc
 from tagfam import _run_jobs
 
 FAMILY = ["C06", "C13", "C14", "C20"]
-FAMILY_FILES = ["harness/chkfam.py", "harness/chkrun.py", "harness/runfix.py", "harness/tagfam.py", "spec/CheckOps.tla", "spec/CheckReport.tla", "spec/CheckTrace.tla", "spec/CheckTrace.cfg",
+FAMILY_FILES = ["harness/chkfam.py", "harness/chkrun.py", "harness/vlex.py", "harness/runfix.py", "harness/tagfam.py", "spec/CheckOps.tla", "spec/CheckReport.tla", "spec/CheckTrace.tla", "spec/CheckTrace.cfg",
                 "spec/MC_CheckReport.cfg", "spec/Mutant_CheckReport_BreakInSubphase.cfg"]
 
 REJECTED_TEXT = "entity e is\n  port (a : in std_logic;\nend entity e\n\narchitecture a of e is\nbegin\n  process begin end end end;\n"
@@ -92,7 +92,8 @@ def _collect(tier):
     plan = [("gating", items_of(96 if q else 700, 1), {"cfgs": 3 if q else 4}),
             ("fixphase", items_of(64 if q else 500, 2), {}),
             ("purity", items_of(64 if q else 500, 3), {"perms": 1 if q else 3, "subsets": 3 if q else 5}),
-            ("fixonly", items_of(64 if q else 500, 4), {})]
+            ("fixonly", items_of(64 if q else 500, 4), {}),
+            ("robust", items_of(96 if q else 900, 6), {"per_file": 4 if q else 8})]
     jobs = []
     fid = 0
     for mode, items, opts in plan:
@@ -142,6 +143,9 @@ def _collect(tier):
             elif t == "fixonly":
                 nt = r["kind"] not in ("none",)
                 s = {"file": r["file"], "kind": r["kind"], "selection": r.get("sel", "")[:120], "fixed_rules": len(r["fixedRules"])}
+            elif t == "robust":
+                nt = r["outcome"] != "accepted"
+                s = {"file": r["file"], "damage": r["how"], "mode": r["mode"], "outcome": r["outcome"], "located": r["located"]}
             elif t == "formats":
                 nt = len(r["truth"]) > 0
                 s = {"format": r["of"], "config": r["cfgname"], "violations": len(r["truth"]), "exit": r["exit"], "artefacts": [k for k, v in r["has"].items() if v]}
@@ -166,6 +170,9 @@ def _collect(tier):
             elif t == "fixonly":
                 f = {"property": prop, "clause": clause, "rule": r.get("rule", ""), "input": r["file"], "config": "fix_only:" + r["kind"],
                      "detail": {k2: r.get(k2) for k2 in ("sel", "fixedLines", "listedLines", "changedLines", "reportedLines", "untouched", "status")}}
+            elif t == "robust":
+                f = {"property": prop, "clause": clause, "rule": ",".join(r.get("rule_crashes", [])), "input": r["file"] + "#damaged:" + r["how"], "config": r["mode"] + " " + r["status"],
+                     "detail": {"status": r["status"], "tail": r["tail"], "tb": r["tb"]}}
             elif t == "formats":
                 f = {"property": prop, "clause": clause, "rule": "", "input": "formats:" + r["cfgname"], "config": "-of " + r["of"],
                      "detail": {"exit": r["exit"], "procErr": r["procErr"], "truth": len(r["truth"]), "status": r["status"], "tail": r.get("stdout_tail", "")[-300:]}}
@@ -177,7 +184,7 @@ def _collect(tier):
     return {"findings": findings, "stats": stats, "design": design, "samples": samples}
 
 
-TYPES = {"C06": ["purity"], "C13": ["gating", "equiv"], "C14": ["formats"], "C20": ["fixonly"]}
+TYPES = {"C06": ["purity"], "C13": ["gating", "equiv"], "C14": ["formats"], "C20": ["fixonly"], "C19": ["robust"]}
 LEVEL = {"C06": "exploration", "C13": "model_checking", "C14": "model_checking", "C20": "model_checking"}
 
 
